@@ -133,15 +133,26 @@ def check_eq_shape(ctx, pk, eq):
             lp = loops[0]
             # loop must precede the return (it does, effects are ordered) and iterate all fields
             it = canon(lp.sub['iter'])
-            if it not in ('%s.get_fields()' % slf, '%s.__class__.get_fields()' % slf, 'type(%s).get_fields()' % slf):
-                ctx.violation(rule, eq, 'for ... in %s' % it, 'the comparison does not cover the full get_fields() list', lp.lineno)
-                continue
             tgt = lp.sub['target']
-            if not (isinstance(tgt, ast.Tuple) and len(tgt.elts) == 4):
-                ctx.undecided(rule, eq, 'for %s in %s' % (unparse(tgt), it), 'loop target is not a 4-tuple', lp.lineno)
-                continue
             item = '<item of %d>' % lp.sub['phi']
-            name_e = '%s[0]' % item
+            if it not in ('%s.get_fields()' % slf, '%s.__class__.get_fields()' % slf, 'type(%s).get_fields()' % slf):
+                if 'get_fields()' in it:
+                    # a part / a filtered view of the field table: that is what is wrong
+                    ctx.violation(rule, eq, 'for ... in %s' % it, 'the comparison does not cover the full get_fields() list', lp.lineno, witness=True)
+                    continue
+                kind, what = names_source(ctx.repo, lp.sub['iter'], slf)
+                if kind == 'filtered':
+                    ctx.violation(rule, eq, 'for ... in %s' % it, 'the comparison does not cover the full get_fields() list: %s' % what, lp.lineno, witness=True)
+                    continue
+                if kind != 'all' or not isinstance(tgt, ast.Name):
+                    ctx.undecided(rule, eq, 'for ... in %s' % it, 'the comparison walks something that is not the get_fields() list: cannot see that it names every field', lp.lineno)
+                    continue
+                name_e = item
+            else:
+                if not (isinstance(tgt, ast.Tuple) and len(tgt.elts) == 4):
+                    ctx.undecided(rule, eq, 'for %s in %s' % (unparse(tgt), it), 'loop target is not a 4-tuple', lp.lineno)
+                    continue
+                name_e = '%s[0]' % item
             body = lp.sub['body']
             diff_paths, ok = 0, True
             for bp in body:
@@ -188,6 +199,68 @@ def check_eq_shape(ctx, pk, eq):
         elif p.end[0] in ('fall',):
             if not any('<in loop' in t for t in p.guard_texts()):
                 ctx.violation(rule, eq, label + ' -> %s' % p.describe()['end'], '__eq__ does not return True/False on this path', eq.node.lineno)
+
+
+def names_source(repo, it, slf):
+    """where a per-class attribute that the comparison walks comes from: the class builder stores
+    it (class attribute, possibly name-mangled, or an entry of __bisturi__).  ('all', text) when
+    it is the name of every entry of the builder's field list, in order; ('filtered', text) when
+    entries are left out; (None, ...) otherwise"""
+    pb = repo.classes.get('PacketClassBuilder')
+    if pb is None:
+        return None, ''
+    key = attr = None
+    if isinstance(it, ast.Subscript) and canon(it.value) in ('%s.__bisturi__' % slf, '%s.__class__.__bisturi__' % slf) and isinstance(it.slice, ast.Constant):
+        key = it.slice.value
+    elif isinstance(it, ast.Attribute) and canon(it.value) in (slf, '%s.__class__' % slf):
+        attr = it.attr
+    else:
+        return None, ''
+    found = []
+    for fi in pb.methods.values():
+        for n in ast.walk(fi.node):
+            v = None
+            if key is not None and isinstance(n, ast.Assign) and len(n.targets) == 1 and isinstance(n.targets[0], ast.Subscript) \
+                    and canon(n.targets[0].value) == 'self.bisturi_conf' and isinstance(n.targets[0].slice, ast.Constant) and n.targets[0].slice.value == key:
+                v = n.value
+            if attr is not None and isinstance(n, ast.Call) and isinstance(n.func, ast.Name) and n.func.id == 'setattr' and len(n.args) == 3 \
+                    and canon(n.args[0]) == 'self.cls' and isinstance(n.args[1], ast.Constant) \
+                    and n.args[1].value in (attr, '_Packet' + attr if attr.startswith('__') and not attr.endswith('__') else attr):
+                v = n.args[2]
+            if attr is not None and isinstance(n, ast.Assign) and len(n.targets) == 1 and isinstance(n.targets[0], ast.Subscript) \
+                    and canon(n.targets[0].value) == 'self.attrs' and isinstance(n.targets[0].slice, ast.Constant) \
+                    and n.targets[0].slice.value in (attr, '_Packet' + attr):
+                v = n.value
+            if v is not None:
+                found.append((fi, v))
+    if len(found) != 1:
+        return None, ''
+    fi, v = found[0]
+    if isinstance(v, ast.Name):
+        defs = [a.value for a in ast.walk(fi.node) if isinstance(a, ast.Assign) and len(a.targets) == 1 and isinstance(a.targets[0], ast.Name) and a.targets[0].id == v.id]
+        if len(defs) != 1:
+            return None, ''
+        v = defs[0]
+    if isinstance(v, ast.Call) and isinstance(v.func, ast.Name) and v.func.id in ('tuple', 'list') and len(v.args) == 1 and not v.keywords:
+        v = v.args[0]
+    if not isinstance(v, (ast.ListComp, ast.GeneratorExp)) or len(v.generators) != 1:
+        return None, ''
+    g = v.generators[0]
+    if canon(g.iter) != 'self.fields':
+        return None, ''
+    text = unparse(v)[:100]
+    if g.ifs:
+        return 'filtered', 'it is built as %s' % text
+    first = None
+    if isinstance(g.target, ast.Tuple) and g.target.elts and isinstance(g.target.elts[0], ast.Name):
+        first = g.target.elts[0].id
+        ok = isinstance(v.elt, ast.Name) and v.elt.id == first
+    elif isinstance(g.target, ast.Name):
+        ok = isinstance(v.elt, ast.Subscript) and isinstance(v.elt.value, ast.Name) and v.elt.value.id == g.target.id \
+            and isinstance(v.elt.slice, ast.Constant) and v.elt.slice.value == 0
+    else:
+        ok = False
+    return ('all' if ok else None), text
 
 
 def known_of(p):
